@@ -286,8 +286,8 @@ func genGoValue(r *rand.Rand, vc *valCfg, t reflect.Type, depth int) reflect.Val
 	case timeType:
 		// around the epoch, the ends of the four-digit years, and where the count of
 		// nanoseconds since the epoch passes 2^63 and 2^64 (years 2262 / 1677 and 2554 / 1385)
-		secs := []int64{0, 1, -1, 951782400, 253402300799, -62135596800, math.MaxInt32, 1<<32 + 123,
-			9223372036, 9223372037, -9223372036, -9223372037, 18446744073, 18446744074, -18446744073, -18446744074}[r.IntN(map[bool]int{true: 8, false: 16}[vc.nearYears])]
+		secs := []int64{0, 1, -1, 951782400, math.MaxInt32, 2000000000, -31535999, 3000000000, 253402300799, -62135596800, 1<<32 + 123,
+			9223372036, 9223372037, -9223372036, -9223372037, 18446744073, 18446744074, -18446744073, -18446744074}[r.IntN(map[bool]int{true: 7, false: 19}[vc.nearYears])]
 		tm := time.Unix(secs, int64(r.IntN(2))*int64(r.IntN(1e9))).UTC()
 		if r.IntN(4) == 0 {
 			tm = time.Unix(secs, []int64{0, 1, 709551615, 709551616, 854775807, 854775808, 999999999}[r.IntN(7)]).UTC()
